@@ -29,6 +29,7 @@ type c04Shape struct {
 	Rest bool  `json:"rest"`
 	Keys []int `json:"keys"`
 	Aux  int   `json:"aux"`
+	Aok  bool  `json:"aok"`
 }
 
 type c04Val struct {
@@ -98,6 +99,9 @@ func c04LambdaList(ll c04Shape) (string, []string) {
 			n := fmt.Sprintf("k%d", i+1)
 			parts, names = append(parts, dflt(n, k)), append(names, n)
 		}
+	}
+	if ll.Aok {
+		parts = append(parts, "&allow-other-keys")
 	}
 	if ll.Aux > 0 {
 		parts, names = append(parts, "&aux", "(a1 (+ 2 3))"), append(names, "a1")
